@@ -84,6 +84,8 @@ func (r *rng) pick(xs []string) string { return xs[r.intn(len(xs))] }
 
 // ------------------------------------------------------------------- ndjson
 
+var debugFlush = os.Getenv("VERIF_DEBUG") != ""
+
 type J = map[string]any
 
 type ndWriter struct {
@@ -110,6 +112,9 @@ func (w *ndWriter) write(v any) {
 	w.w.Write(b)
 	w.w.WriteByte('\n')
 	w.n++
+	if debugFlush {
+		w.w.Flush()
+	}
 	w.mu.Unlock()
 }
 
@@ -269,6 +274,24 @@ func (r *RecordingRegistry) Gauge(id string, tags ...string) (int, bool) {
 	}
 	v, ok2 := s()
 	return int(v), ok2
+}
+
+// GaugeByID polls the first registered gauge with the given metric ID whatever its tags.
+func (r *RecordingRegistry) GaugeByID(id string) (int, bool) {
+	r.mu.Lock()
+	var s core.MetricSupplier
+	for _, k := range r.GaugeReg {
+		if strings.HasPrefix(k, id+"|") {
+			s = r.Gauges[k]
+			break
+		}
+	}
+	r.mu.Unlock()
+	if s == nil {
+		return 0, false
+	}
+	v, ok := s()
+	return int(v), ok
 }
 
 func (r *RecordingRegistry) takeSamples() []RecSample {
